@@ -1,16 +1,24 @@
 """C08 — sub-message builders and reply dispatch agree on id, trigger and payload."""
-from .. import common as c, translate
+from .. import common as c, translate, rs2lean
 from ._replies_common import run_reply_stream
 
 THEOREMS = [("Sylvia.Thm.C08", "C08." + t) for t in
             ["ids_distinct", "numeric_ids_injective", "trigger_spec", "submsg_preserves", "msg_converted", "payload_roundtrip_one", "payload_roundtrip_many", "id_string_injective_on_shape"]] + \
-           [("Sylvia.Thm.Obl.Complete.C08", "Obl.extraction_complete_C08")]
+           [("Sylvia.Thm.Obl.Complete.C08", "Obl.extraction_complete_C08")] + \
+           [("Sylvia.Thm.ReplyDataFn", "ReplyDataFn.emit_cw_reply_on_eq"), ("Sylvia.Thm.ReplyDataFn", "ReplyDataFn.tokens_injective")]
 
 
 def run(ctx):
     ctx.cov["trusted_base"] = ["Lean 4.33 kernel", "axioms: propext, Classical.choice, Quot.sound only (audited)",
                                "translator (reply.rs forms)", "L2 corpus harness (sv::SubMsgMethods on SubMsg / WasmMsg / CosmosMsg, then sv::dispatch_reply) + svmodel driver"]
     translate.regenerate()
+    # function translator: ReplyData::emit_cw_reply_on -> Extracted/ReplyDataFns.lean (proved equal to the model's `Reply.cwReplyOn`,
+    # the function `C08.trigger_spec` is about, for every handler list); it uses the regenerated `ReplyOn` of msg.rs
+    for prof, what in (("replyon", "sylvia-derive/src/parser/attributes/msg.rs::ReplyOn"), ("replydata", "sylvia-derive/src/contract/communication/reply.rs::ReplyData::emit_cw_reply_on")):
+        probs = rs2lean.regenerate(prof)
+        ctx.cov["function_translator_" + prof] = {"source": what, "problems": probs}
+        if probs:
+            ctx.obligation_failed("function-translator(%s)" % prof, "; ".join(probs)[:1500])
     if THEOREMS:
         c.prove(ctx, sorted({m for m, _ in THEOREMS}), THEOREMS)
     run_reply_stream(ctx, "L2-builders", lambda tags: tags[0] in ("ids", "builder", "roundtrip"), builders=True)
